@@ -77,7 +77,7 @@ PROPS = {
     "C15": {
         "modules": ["Resolved.Props.C15"],
         "streams": [{"name": "cache", "quick": 4000, "thorough": 80000},
-                    {"name": "cache-threads", "quick": 40, "thorough": 600, "shards": 2}],
+                    {"name": "cache-threads", "quick": 40, "thorough": 600, "shards": 2, "timeout_quick": 180, "timeout_thorough": 1800}],
         "trivial_tags": [r":bad-op", r"cache\.hist.*:len0/"],
         "assumptions": [
             "std::sync::Mutex: every SharedCache method is one critical section, so a concurrent history is a sequential one (observed with 2-8 real threads, not proved)",
